@@ -14,6 +14,7 @@ import (
 	"os"
 	"path/filepath"
 	"sort"
+	"strings"
 	"sync"
 	"sync/atomic"
 	"testing"
@@ -342,6 +343,10 @@ func c09Scenario(r *sim.Run) {
 	s.LockYield = true
 	s.UnlockYield = true
 	s.Trace = func(l string) { r.Logf("step %s", l) }
+	// a panic in one of the pipeline's own goroutines (ingest workers) takes the station down
+	s.OnTaskPanic = func(task string, v any) {
+		r.Fail("C09/panic/pipeline-goroutine", "a goroutine of the ingest pipeline (%s) panicked: %v", task, v)
+	}
 	systematic := tp.Choose("mode", 2) == 1
 	var scn string
 	if systematic {
@@ -730,8 +735,17 @@ func c09Shutdown(r *sim.Run, s *hook.Sched, busy bool) {
 		before = 0
 		r.Probe("shutdown_with_queued_registrations")
 	}
+	// the stop request may arrive while the pool is still starting (workers launched, not yet running)
+	duringStartup := !bigPool && tp.Prob("stop-during-startup", 1, 4)
+	if duringStartup {
+		r.Probe("stop_during_startup")
+	}
 	w.spawn("controller", func() {
-		hook.ParkIdle("workers-started")
+		if duringStartup {
+			hook.Yield("pipeline-starting")
+		} else {
+			hook.ParkIdle("workers-started")
+		}
 		if bigPool {
 			// every worker is held inside its probe, then the buffer is filled
 			w.holdProbes.Store(true)
@@ -787,6 +801,22 @@ func c09Shutdown(r *sim.Run, s *hook.Sched, busy bool) {
 		r.Fail("C09/shutdown-slow/"+circ, "HandleRegUpdates returned %v after the stop request", returnedAt-cancelledAt)
 	}
 	close(regChan)
+	// HandleRegUpdates has returned: every goroutine it started must be gone. Whatever is still
+	// there runs on under the scheduler (not during teardown, where choices are the runtime's)
+	if !r.Failed() {
+		var left []string
+		for _, n := range s.LiveNames() {
+			if strings.HasPrefix(n, "pipeline/") {
+				left = append(left, n)
+			}
+		}
+		if len(left) > 0 {
+			sim.Drive(r, s, sim.DriveOpt{Horizon: r.Elapsed() + time.Minute, MaxSteps: 5000})
+			if !r.Failed() {
+				r.Fail("C09/goroutine-left-after-shutdown/workers", "HandleRegUpdates returned while %d of its goroutines were still alive: %v", len(left), left)
+			}
+		}
+	}
 }
 
 func c09Reload(r *sim.Run, s *hook.Sched) {
@@ -847,12 +877,18 @@ func c09Reload(r *sim.Run, s *hook.Sched) {
 
 // c09PhantomSelector loads a selector from a generated subnet file (generation 1).
 func c09PhantomSelector() (*phantoms.PhantomIPSelector, error) {
+	return c09PhantomSelectorFor("192.0.2.0/24", "2001:db8::/64")
+}
+
+// c09PhantomSelectorFor: a selector over one IPv4 and one IPv6 subnet (small subnets make
+// registrations share phantoms).
+func c09PhantomSelectorFor(v4, v6 string) (*phantoms.PhantomIPSelector, error) {
 	dir := os.Getenv("VERIF_SCRATCH")
 	if dir == "" {
 		dir = os.TempDir()
 	}
-	p := filepath.Join(dir, "c09_subnets.toml")
-	body := "[Networks]\n  [Networks.1]\n    Generation = 1\n    [[Networks.1.WeightedSubnets]]\n      Weight = 1\n      RandomizeDstPort = false\n      Subnets = [\"192.0.2.0/24\", \"2001:db8::/64\"]\n"
+	p := filepath.Join(dir, "c09_subnets_"+strings.NewReplacer("/", "_", ":", "_").Replace(v4)+".toml")
+	body := "[Networks]\n  [Networks.1]\n    Generation = 1\n    [[Networks.1.WeightedSubnets]]\n      Weight = 1\n      RandomizeDstPort = false\n      Subnets = [\"" + v4 + "\", \"" + v6 + "\"]\n"
 	if err := os.WriteFile(p, []byte(body), 0o644); err != nil {
 		return nil, err
 	}
